@@ -123,6 +123,10 @@ func RuleM3(c *Ctx) {
 	// dispatch table: c == k -> callee
 	cases := map[int64]*ssa.Function{}
 	for _, cd := range core.Conds(disp) {
+		// c == k, either way round
+		if _, isConstX := core.ConstInt(cd.X); isConstX {
+			cd.X, cd.Y = cd.Y, cd.X
+		}
 		if p, ok := cd.X.(*ssa.Parameter); !ok || p.Name() != "c" {
 			continue
 		}
@@ -237,7 +241,22 @@ func RuleM3(c *Ctx) {
 			bl := arrayLenOfSliceArg(pc.Call.Args[2])
 			want := int64(1) << uint(k-1)
 			// the short top window: chunk index == nb (constant)
-			if ch, isCh := core.ConstInt(core.StripConv(chunkArgInParent(pc))); isCh && ch == nb && lastC != 0 {
+			arg := core.StripConv(chunkArgInParent(pc))
+			ch, isCh := core.ConstInt(arg)
+			if !isCh {
+				// the loop variable at a spawn site that only one value of it reaches (`case j == nbChunks: go …`)
+				for _, s := range c.spawnSites() {
+					if s.parent != f || s.target != pc.Parent() {
+						continue
+					}
+					if cl := loopOf(countedLoops(f), s.at.Block()); cl != nil && cl.phi == arg {
+						if vs, okV := cl.valuesAt(f, s.at.Block()); okV && len(vs) == 1 {
+							ch, isCh = vs[0], true
+						}
+					}
+				}
+			}
+			if isCh && ch == nb && lastC != 0 {
 				want = int64(1) << uint(lastC-1)
 			}
 			if bl != want {
@@ -361,7 +380,7 @@ func RuleM4(c *Ctx) {
 			}
 			for _, cl := range cls {
 				if cl.phi == v && cl.loop.Blocks[at] {
-					return cl.values()
+					return cl.valuesAt(fn, at)
 				}
 			}
 			// … or an affine function of the loop variable (j := nbChunks - k)
@@ -370,7 +389,7 @@ func RuleM4(c *Ctx) {
 					continue
 				}
 				if f := linOf(v, cl.phi, nil); f.ok && f.a != 0 {
-					if vs, ok := cl.values(); ok {
+					if vs, ok := cl.valuesAt(fn, at); ok {
 						out := make([]int64, len(vs))
 						for i, x := range vs {
 							out[i] = f.a*x + f.b
@@ -1167,32 +1186,44 @@ func appendFill(x *ssa.Phi) (elem ssa.Value, cl *countedLoop, ok bool) {
 		if !app.Block().Dominates(pred) {
 			return nil, nil, false
 		}
-		sl, isSl := app.Call.Args[1].(*ssa.Slice)
-		if !isSl || !isArrayOfLen(sl.X.Type(), 1) {
-			return nil, nil, false
-		}
-		arr, isAl := sl.X.(*ssa.Alloc)
-		if !isAl {
-			return nil, nil, false
-		}
-		var found ssa.Value
-		n := 0
-		for _, r := range core.Refs(arr) {
-			if ia, ok := r.(*ssa.IndexAddr); ok {
-				for _, rr := range core.Refs(ia) {
-					if st, ok := rr.(*ssa.Store); ok && st.Addr == ssa.Value(ia) {
-						found = st.Val
-						n++
-					}
-				}
-			}
-		}
-		if n != 1 || (elem != nil && elem != found) {
+		found := appendedElem(app)
+		if found == nil || (elem != nil && elem != found) {
 			return nil, nil, false
 		}
 		elem = found
 	}
 	return elem, cl, elem != nil
+}
+
+// appendedElem: the single value e of `append(s, e)` (lowered to a one-element varargs array), or nil.
+func appendedElem(app *ssa.Call) ssa.Value {
+	if bi, isB := app.Call.Value.(*ssa.Builtin); !isB || bi.Name() != "append" || len(app.Call.Args) != 2 {
+		return nil
+	}
+	sl, isSl := app.Call.Args[1].(*ssa.Slice)
+	if !isSl || !isArrayOfLen(sl.X.Type(), 1) {
+		return nil
+	}
+	arr, isAl := sl.X.(*ssa.Alloc)
+	if !isAl {
+		return nil
+	}
+	var found ssa.Value
+	n := 0
+	for _, r := range core.Refs(arr) {
+		if ia, ok := r.(*ssa.IndexAddr); ok {
+			for _, rr := range core.Refs(ia) {
+				if st, ok := rr.(*ssa.Store); ok && st.Addr == ssa.Value(ia) {
+					found = st.Val
+					n++
+				}
+			}
+		}
+	}
+	if n != 1 {
+		return nil
+	}
+	return found
 }
 
 // ---------------------------------------------------------------------------
@@ -1267,6 +1298,83 @@ func RuleLG(targets [][4]string) Rule {
 	}
 }
 
+// idxWithinLen: over the iteration space of the unit-step loop cl, the index expression (affine in the loop variable)
+// stays within [0, len(p)-1], decided on affine forms in which len(p) is a symbol.
+func idxWithinLen(cl *countedLoop, idx ssa.Value, p *ssa.Parameter) bool {
+	if cl.step != 1 && cl.step != -1 {
+		return false
+	}
+	one := aff{nil, nil, 1, true}
+	init, bound := affOf(cl.init, 0), affOf(cl.bound, 0)
+	var lo, hi aff
+	switch {
+	case cl.step == 1 && cl.op == token.LSS:
+		lo, hi = init, bound.add(one, -1)
+	case cl.step == 1 && cl.op == token.LEQ:
+		lo, hi = init, bound
+	case cl.step == -1 && cl.op == token.GTR:
+		lo, hi = bound.add(one, 1), init
+	case cl.step == -1 && cl.op == token.GEQ:
+		lo, hi = bound, init
+	default:
+		return false
+	}
+	// idx = k*var + rest
+	f := affOfStop(idx, cl.phi, 0)
+	if !f.ok {
+		return false
+	}
+	k := int64(0)
+	rest := aff{nil, nil, f.c, true}
+	for j, l := range f.leaves {
+		if l == cl.phi || core.StripConv(l) == cl.phi {
+			k += f.coefs[j]
+			continue
+		}
+		rest.leaves = append(rest.leaves, l)
+		rest.coefs = append(rest.coefs, f.coefs[j])
+	}
+	if k == 0 {
+		return false
+	}
+	imin, imax := lo.scale(k).add(rest, 1), hi.scale(k).add(rest, 1)
+	if k < 0 {
+		imin, imax = imax, imin
+	}
+	// len(p) as one symbol
+	var lenLeaf ssa.Value
+	canonLen := func(a aff) aff {
+		out := aff{nil, nil, a.c, a.ok}
+		for j, l := range a.leaves {
+			if x, isLen := core.IsLenOf(l); isLen && paramBehind(x) == p {
+				if lenLeaf == nil {
+					lenLeaf = l
+				}
+				l = lenLeaf
+			}
+			out = out.add(aff{[]ssa.Value{l}, []int64{a.coefs[j]}, 0, true}, 1)
+		}
+		return out
+	}
+	imin, imax = canonLen(imin), canonLen(imax)
+	if lenLeaf == nil {
+		return false
+	}
+	constNonNeg := func(a aff) bool {
+		if !a.ok || a.c < 0 {
+			return false
+		}
+		for _, c := range a.coefs {
+			if c != 0 {
+				return false
+			}
+		}
+		return true
+	}
+	slack := aff{[]ssa.Value{lenLeaf}, []int64{1}, -1, true}.add(imax, -1)
+	return constNonNeg(imin) && constNonNeg(slack)
+}
+
 // RuleLGOwn — wrappers that leave the length comparison to the routine they delegate to (rule LG decides it there,
 // rule M1 that both vectors are handed on whole) must not pair the two vectors themselves.
 func RuleLGOwn(targets [][5]string) Rule {
@@ -1330,13 +1438,7 @@ func RuleLGOwn(targets [][5]string) Rule {
 					own := false
 					if idx != nil && f == fn {
 						for _, cl := range cls {
-							if cl.phi != core.StripConv(idx) || !cl.loop.Blocks[i.Block()] || cl.step != 1 || cl.op != token.LSS {
-								continue
-							}
-							if z, isZ := core.ConstInt(cl.init); !isZ || z < 0 {
-								continue
-							}
-							if x, isLen := core.IsLenOf(cl.bound); isLen && paramBehind(x) == p {
+							if cl.loop.Blocks[i.Block()] && idxWithinLen(cl, idx, p) {
 								own = true
 							}
 						}
@@ -1540,6 +1642,34 @@ func RuleM8(c *Ctx) {
 			}
 		}
 	})
+	// made empty and grown by one append per iteration of a loop 0 .. B-1: its length is B
+	if z, isZ := core.ConstInt(selLen); selLen != nil && isZ && z == 0 {
+		selLen = nil
+		if cell, isCell := selCell.(*ssa.Alloc); isCell {
+			var fills []*ssa.Store
+			other := 0
+			for _, st := range allStoresTo(fn, cell) {
+				if app, isApp := st.Val.(*ssa.Call); isApp && appendedElem(app) != nil && cellOfLoad(app.Call.Args[0]) == cell {
+					fills = append(fills, st)
+				} else if _, isMake := st.Val.(*ssa.MakeSlice); !isMake {
+					other++
+				}
+			}
+			if len(fills) == 1 && other == 0 {
+				if cl := loopOf(countedLoops(fn), fills[0].Block()); cl != nil && cl.step == 1 && cl.op == token.LSS {
+					every := true
+					for _, p := range cl.loop.Header.Preds {
+						if cl.loop.Blocks[p] && !fills[0].Block().Dominates(p) {
+							every = false
+						}
+					}
+					if z0, isZ0 := core.ConstInt(cl.init); isZ0 && z0 == 0 && every {
+						selLen = cl.bound
+					}
+				}
+			}
+		}
+	}
 	if selLen == nil {
 		c.Und("M8", "partitionScalars:selectors", fn.Pos(), "the selector table is not recognised")
 		return
@@ -1603,7 +1733,36 @@ func RuleM8(c *Ctx) {
 			}
 			found++
 			z, isZ := core.ConstInt(cl.init)
-			sameCell := cellOfLoad(cl.bound) != nil && cellOfLoad(cl.bound) == cellOfLoad(nb)
+			// the bound may be a copy of the cell taken once (a field of a grouping struct, a parameter binding)
+			bcell := cellOfLoad(cl.bound)
+			for d := 0; d < 3 && bcell != nil && bcell != cellOfLoad(nb); d++ {
+				sts := storesInto(bcell)
+				if len(sts) != 1 {
+					break
+				}
+				src := cellOfLoad(sts[0].Val)
+				if src == nil {
+					break
+				}
+				// copied after the last write of the source
+				final := true
+				for _, st := range storesInto(src) {
+					if st.Parent() != sts[0].Parent() || core.CanReach(st.Parent(), sts[0], st) {
+						final = false
+					}
+				}
+				if !final {
+					break
+				}
+				bcell = src
+			}
+			sameCell := bcell != nil && bcell == cellOfLoad(nb)
+			copied := false
+			if bcell != nil && !sameCell {
+				if sts := storesInto(bcell); len(sts) == 1 && (core.StripConv(sts[0].Val) == core.StripConv(nb) || core.SameExpr(core.StripConv(sts[0].Val), nb)) {
+					copied = true // a cell holding the very value that sizes the table
+				}
+			}
 			if sameCell {
 				// the cell is final once the table has been sized
 				for _, st := range storesInto(cellOfLoad(nb)) {
@@ -1624,7 +1783,7 @@ func RuleM8(c *Ctx) {
 					}
 				}
 			}
-			okLoop := isZ && z == 0 && cl.step == 1 && cl.op == token.LSS && (sameCell || overTable || core.SameExpr(core.StripConv(cl.bound), nb))
+			okLoop := isZ && z == 0 && cl.step == 1 && cl.op == token.LSS && (sameCell || copied || overTable || core.SameExpr(core.StripConv(cl.bound), nb))
 			c.Check(okLoop, "M8", "partitionScalars:digit-loop-covers-all-windows", cl.phi.Pos(), fmt.Sprintf("the per-scalar digit loop does not run chunk = 0 .. nbChunks-1 with the nbChunks that sizes the selector table (its bound is %s): a carry into a window that is not visited is lost", core.PathOf(cl.bound)), "for chunk := 0; chunk < nbChunks; chunk++ over selectors[chunk]")
 		}
 	}
@@ -1676,7 +1835,62 @@ func RuleM9(c *Ctx) {
 	}
 	ok := outer != nil && inner != nil
 	var why []string
-	if !ok {
+	isNW := func(v ssa.Value) bool { // 64 / pp.windowSize
+		q, isQ := core.StripConv(v).(*ssa.BinOp)
+		if !isQ || q.Op != token.QUO {
+			return false
+		}
+		n64, is64 := core.ConstInt(q.X)
+		return is64 && n64 == 64 && strings.HasSuffix(core.PathOf(q.Y), "pp.windowSize)")
+	}
+	if !ok && len(cls) == 1 {
+		// one running window index k = 0 .. Limbs*(64/windowSize)-1 with l = k/(64/ws), w = k%(64/ws), table[k]
+		cl := cls[0]
+		ok = true
+		z, isZ := core.ConstInt(cl.init)
+		okBound := false
+		if m, isM := core.StripConv(cl.bound).(*ssa.BinOp); isM && m.Op == token.MUL {
+			for _, pr := range [][2]ssa.Value{{m.X, m.Y}, {m.Y, m.X}} {
+				if k, isK := core.ConstInt(pr[0]); isK && k == limbs && isNW(pr[1]) {
+					okBound = true
+				}
+			}
+		}
+		if !isZ || z != 0 || cl.step != 1 || cl.op != token.LSS || !okBound {
+			ok = false
+			why = append(why, "the single window loop does not run k = 0 .. fr.Limbs*(64/windowSize)-1")
+		}
+		limbOK, shiftOK, idxOK := false, false, true
+		nTab := 0
+		core.AllInstrs(fn, func(i ssa.Instruction) {
+			switch x := i.(type) {
+			case *ssa.BinOp:
+				if x.X == cl.phi && isNW(x.Y) {
+					if x.Op == token.QUO {
+						for _, r := range core.Refs(x) {
+							if ia, isIA := r.(*ssa.IndexAddr); isIA && strings.Contains(core.PathOf(ia.X), "scalar") {
+								limbOK = true
+							}
+						}
+					}
+					if x.Op == token.REM {
+						shiftOK = true
+					}
+				}
+			case *ssa.IndexAddr:
+				if strings.HasSuffix(core.PathOf(x.X), "pp.windows)") {
+					nTab++
+					if core.StripConv(x.Index) != cl.phi {
+						idxOK = false
+					}
+				}
+			}
+		})
+		if !limbOK || !shiftOK || !idxOK || nTab == 0 {
+			ok = false
+			why = append(why, "with one running window index k the limb is not scalar[k/(64/windowSize)], the position not k%(64/windowSize), or the table not windows[k]")
+		}
+	} else if !ok {
 		why = append(why, fmt.Sprintf("the nested limb/window loops are not recognised (%d counted loops)", len(cls)))
 	} else {
 		z1, k1 := core.ConstInt(outer.init)
@@ -1896,6 +2110,120 @@ func RulePW(c *Ctx) {
 	cl, m := cls[0], muls[0]
 	ok := true
 	isDegree := func(v ssa.Value) bool { return core.PathOf(v) == "p:degree" }
+	// running-power form: acc = result[0] (= 1); in the loop acc = acc*x, then result[i] = acc
+	if acc, isAcc := m.Call.Args[0].(*ssa.Alloc); isAcc && cl.loop.Blocks[m.Block()] {
+		why := ""
+		a1, a2 := m.Call.Args[1], m.Call.Args[2]
+		if !((a1 == ssa.Value(acc) && core.PathOf(a2) == "&p:x") || (a2 == ssa.Value(acc) && core.PathOf(a1) == "&p:x")) {
+			why = "the running power is not multiplied by x"
+		}
+		var res ssa.Value
+		var inLoop, outLoop []*ssa.Store
+		for _, st := range allStoresTo(fn, acc) {
+			if cl.loop.Blocks[st.Block()] {
+				inLoop = append(inLoop, st)
+			} else {
+				outLoop = append(outLoop, st)
+			}
+		}
+		if len(inLoop) != 0 || len(outLoop) != 1 {
+			why = "the running power is assigned other than once before the loop"
+		}
+		// the stores of the running power into the result
+		var puts []*ssa.Store
+		core.AllInstrs(fn, func(i ssa.Instruction) {
+			if st, isSt := i.(*ssa.Store); isSt && cl.loop.Blocks[st.Block()] {
+				if ld, isLd := st.Val.(*ssa.UnOp); isLd && ld.Op == token.MUL && ld.X == ssa.Value(acc) {
+					puts = append(puts, st)
+				}
+			}
+		})
+		if len(puts) != 1 {
+			why = fmt.Sprintf("%d stores of the running power per iteration, expected one", len(puts))
+		} else {
+			ia, isIA := puts[0].Addr.(*ssa.IndexAddr)
+			every := true
+			for _, p := range cl.loop.Header.Preds {
+				if cl.loop.Blocks[p] && !puts[0].Block().Dominates(p) {
+					every = false
+				}
+			}
+			if !isIA || !every || !core.Precedes(fn, m, puts[0]) || !core.Precedes(fn, m, puts[0].Val.(ssa.Instruction)) {
+				why = "the product is not stored into the result on every iteration"
+			} else {
+				res = ia.X
+				di := linNOf(ia.Index, cl.phi, isDegree, 0)
+				init, bound := linNOf(cl.init, nil, isDegree, 0), linNOf(cl.bound, nil, isDegree, 0)
+				last := bound
+				switch cl.op {
+				case token.LSS:
+					last.b--
+				case token.LEQ:
+				default:
+					last.ok = false
+				}
+				if !di.ok || !init.ok || !last.ok || cl.step != 1 || di.k != 1 || di.n != 0 ||
+					init.b+di.b != 1 || init.n != 0 || last.b+di.b != -1 || last.n != 1 {
+					why = "the destinations are not exactly result[1] .. result[degree-1], in that order"
+				}
+			}
+		}
+		// initial value: result[0] (set to One) or One itself
+		okInit := false
+		if len(outLoop) == 1 {
+			switch v := outLoop[0].Val.(type) {
+			case *ssa.UnOp:
+				if ia, isIA := v.X.(*ssa.IndexAddr); isIA && v.Op == token.MUL && res != nil && ia.X == res {
+					if z, isZ := core.ConstInt(ia.Index); isZ && z == 0 {
+						// read after result[0] = One()
+						core.AllInstrs(fn, func(i ssa.Instruction) {
+							if st, isSt := i.(*ssa.Store); isSt {
+								if ja, isJA := st.Addr.(*ssa.IndexAddr); isJA && ja.X == res {
+									if z0, isZ0 := core.ConstInt(ja.Index); isZ0 && z0 == 0 && core.Precedes(fn, st, v) {
+										if call, isCall := st.Val.(*ssa.Call); isCall && core.IsFunc(core.Callee(call.Common()), "bandersnatch/fr", "One") {
+											okInit = true
+										}
+									}
+								}
+							}
+						})
+					}
+				}
+			case *ssa.Call:
+				okInit = core.IsFunc(core.Callee(v.Common()), "bandersnatch/fr", "One")
+			}
+		}
+		if !okInit && why == "" {
+			why = "the running power does not start at result[0] = 1"
+		}
+		first := false
+		if res != nil {
+			core.AllInstrs(fn, func(i ssa.Instruction) {
+				if st, isSt := i.(*ssa.Store); isSt {
+					if ia, isIA := st.Addr.(*ssa.IndexAddr); isIA && ia.X == res {
+						if z, isZ := core.ConstInt(ia.Index); isZ && z == 0 {
+							if call, isCall := st.Val.(*ssa.Call); isCall && core.IsFunc(core.Callee(call.Common()), "bandersnatch/fr", "One") {
+								first = true
+							}
+						}
+					}
+				}
+			})
+			if ms, isMS := res.(*ssa.MakeSlice); !isMS || core.PathOf(ms.Len) != "p:degree" {
+				why = "the result is not make([]fr.Element, degree)"
+			}
+			for _, r := range core.Returns(fn) {
+				if r.Results[0] != res {
+					why = "something other than the filled slice is returned"
+				}
+			}
+		}
+		if !first && why == "" {
+			why = "result[0] is not set to 1"
+		}
+		c.Check(why == "", "PW", "PowersOf:recurrence", fn.Pos(), "PowersOf is not result[0]=1, result[i]=result[i-1]*x for i=1..degree-1: "+why, "result[0] = 1; running power p = p*x stored into result[i], i = 1 .. degree-1")
+		return
+	}
 	dst, isD := m.Call.Args[0].(*ssa.IndexAddr)
 	a, isA := m.Call.Args[1].(*ssa.IndexAddr)
 	other := m.Call.Args[2]
